@@ -14,5 +14,6 @@ def run_all(chk, fsets, tier):
                  doc="E3: under the documented domain (n <= 2^64-2; zeta 1<=k<=63; pi/Rice/exp-Golomb k<=63; Golomb b>=1; minimal binary max>=1, n<max) every overflow/shift/division assert, ilog2 argument, read_bits/write_bits width and reachable panic of each code's write/len function is discharged (reader side: up to stream-domain assumptions)")
         rn.run_specs(chk, F, [s for s in rn.code_specs() if not s.key.startswith("vbyte.io_")], "K1.domain", fs)
     import rules_ivl
-    rules_ivl.run_c03_roundtrip(chk, facts.load(fsets[0]), fsets[0], tier)
+    for fs in fsets:
+        rules_ivl.run_c03_roundtrip(chk, facts.load(fs), fs, tier)
     chk.trust("rustc MIR, exporter, contract table, LP entailment; lemmas L4-L7 and the stream-domain assumption are listed, not discharged")
